@@ -1097,6 +1097,15 @@ impl Gen {
   /// `data()` extend beyond the mapping: such an arena is only looked at (`info`), closed and
   /// opened again with the whole file.
   fn reopen_good(&mut self, mode: &str) -> bool {
+    // a capacity that cannot even hold the arena's prefix must be refused, whatever the mode
+    if self.rng.chance(6) {
+      let d = self.cfg.as_ref().map(|c| c.prefix() as u64).unwrap_or(40);
+      let r = self.cfg.as_ref().map(|c| c.reserved as u64).unwrap_or(0);
+      let small = self.rng.pick(&[0, 1, r, r + 1, r + 8, d.saturating_sub(8), d.saturating_sub(1), d]);
+      self.reopen_line(mode, &small.to_string(), None, None, false);
+      // (whatever it answered: the history continues with an ordinary reopen; `close` of a closed case is `r=closed`)
+      self.emit("close".to_string());
+    }
     let cap = self.pick_cap();
     let create = self.rng.chance(30);
     let ans = self.reopen_line(mode, &cap, None, None, create);
@@ -1241,6 +1250,14 @@ impl Gen {
       }
       let n = (self.left / (cuts - k + 1)).max(1);
       self.run_mix(n, false);
+      // `clear` of a file-backed arena must leave a file that is still a valid (pristine) arena
+      if self.rng.chance(8) && self.case.is_some() {
+        self.release_all(true, |_| false);
+        self.emit("clear".to_string());
+        self.emit("info".to_string());
+        let m = self.rng.range(0, 4) as usize;
+        self.run_mix(m, false);
+      }
       // a resized file-backed arena must still be the file (`truncate` exists on unsync arenas; `r=na` otherwise)
       if self.rng.chance(22) && self.case.is_some() {
         self.trunc_once();
